@@ -453,7 +453,7 @@ int main(int argc, char **argv)
     vp::init(argc, argv, "C18");
     const bool T = vp::thorough();
     build_meta();
-    const int maxn = T ? 9 : 6, max_root = 3, max_sub = T ? 3 : 2, maxk = T ? 6 : 3;
+    const int maxn = T ? 9 : 6, max_root = 3, max_sub = T ? 3 : 2, maxk = T ? 5 : 3;
     vp::bound("collapsePath", "all absolute paths of 1.." + std::to_string(maxn) + " components over {a, bb, .., c.., instrument, a_component_of_32_characters_xyz}, with and without trailing '/'");
     vp::bound("apropos", "root tables = ordered selections of 0.." + std::to_string(max_root) + " of 11 entries (5 leaves a ab:i b::f c/d: e#2:i, 6 sub-trees s/ t/u/ v#2/ a/ w/::i f#2/:f), every sub-tree with every ordered selection of 0.." +
                          std::to_string(max_sub) + " of {x, xy:i, y::i:f, z/{w k#2::i}}; trees violating the side condition are skipped");
